@@ -2,7 +2,8 @@
    durability of one synced pebble batch as the stated assumption: [AWrite] is a single action) + fault enumeration on the
    implementation. *)
 From Coq Require Import List NArith Bool Lia.
-From LE Require Import Chain.Crash Chain.CrashProofs.
+From LE Require Import Chain.Crash Chain.CrashProofs Chain.CrashFinite Chain.CrashFiniteProofs.
+From LE Require Chain.DbAtomicExpected Gen.DbAtomic Chain.MutatorsExpected Gen.Mutators.
 Import ListNotations.
 Local Open Scope N_scope.
 
@@ -44,6 +45,41 @@ Proof. exact crash_consistent. Qed.
 Theorem C13_restart_tip_matches : forall d, Consistent d ->
   exists t id, d KTipMark = Some t /\ d (KIdx t) = Some id /\ d (KHeader id) = Some t /\ forall k, d (KIdx (t + 1 + k)) = None.
 Proof. exact restart_tip_matches. Qed.
+
+(* restore from the temp table (processValidated with removeTemp after deleteBlock with saveTemp): at every crash point the
+   block is on the chain or still in the temp table, never in neither *)
+Theorem C13_restore_never_loses_block : forall d i k, present d (KTemp (a_h i)) ->
+  RestoreSafe (durable_after d (firstn k (add_actions i))) (a_h i) (a_id i).
+Proof. exact restore_never_loses_block. Qed.
+
+(* the executable consistency check used on the implementation's databases is [Consistent] *)
+Theorem C13_consistent_b_iff : forall l, NoDup (map fst l) -> (consistent_b l = true <-> Consistent (lget l)).
+Proof. exact consistent_b_iff. Qed.
+
+Theorem C13_consistent_b_sound : forall l, consistent_b l = true -> Consistent (lget l).
+Proof. exact consistent_b_sound. Qed.
+
+(* ---- code-level side of the assumptions, regenerated from the source on every run ---- *)
+(* pkg/db: the Batch mutators only stage (no call that commits, applies, writes, syncs, resets or reaches the database), nothing
+   else touches the pebble batch, and DB.Write applies it exactly once with pebble.Sync *)
+Theorem C13_batch_shape_exact :
+  Gen.DbAtomic.found_batch_fields = Chain.DbAtomicExpected.expected_batch_fields /\
+  Gen.DbAtomic.found_batch_methods = Chain.DbAtomicExpected.expected_batch_methods /\
+  Gen.DbAtomic.found_db_durable = Chain.DbAtomicExpected.expected_db_durable /\
+  Gen.DbAtomic.found_inner_users = Chain.DbAtomicExpected.expected_inner_users.
+Proof. vm_compute. repeat split. Qed.
+
+Theorem C13_batch_mutators_stage_only :
+  forallb Chain.DbAtomicExpected.stage_only Gen.DbAtomic.found_batch_methods = true /\
+  Chain.DbAtomicExpected.write_once_sync Gen.DbAtomic.found_db_durable = true.
+Proof. vm_compute. split; reflexivity. Qed.
+
+(* pkg/blockchain, pkg/consensus: the only code writing the engine database outside a batch handed to Chain.AddBlock /
+   Chain.RemoveBlock is DataAccess.ClearTempBlocks (mutator closure shared with C04) — single_durable_write assumes it *)
+Theorem C13_engine_writes_closed :
+  Gen.Mutators.found_sites = Chain.MutatorsExpected.expected_sites /\
+  Chain.MutatorsExpected.durable_writers Gen.Mutators.found_sites = Chain.MutatorsExpected.expected_durable.
+Proof. vm_compute. split; reflexivity. Qed.
 
 (* non-vacuity: a consistent genesis database and a history add, add, delete, rejected add *)
 Definition ex_genesis : db := fun k =>
